@@ -274,6 +274,14 @@ func getRequestHeader(src *fasthttp.RequestHeader) (dest http.Header) {
 
 // ServeFastHTTP implements the fasthttp.RequestHandler.
 func (h *Handler) ServeFastHTTP(ctx *fasthttp.RequestCtx) {
+	// fasthttp does not recover panics of request handlers: one would end the process.
+	defer func() {
+		if e := recover(); e != nil {
+			h.onFastHTTPError(ctx, core.NewPanicError(e))
+			ctx.Response.ResetBody()
+			ctx.SetStatusCode(fasthttp.StatusInternalServerError)
+		}
+	}()
 	if ctx.Request.Header.ContentLength() > h.Service.MaxRequestLength {
 		ctx.SetStatusCode(fasthttp.StatusRequestEntityTooLarge)
 		return
